@@ -60,6 +60,7 @@ OK_REPLIES = {
     'ok-noreason': b'HTTP/1.1 200\r\n\r\n',
     'ok-braces': b'HTTP/1.1 200 {} OK {0} %s\r\nVia: {x} }{\r\n\r\n',
     'ok-big-16000': b'HTTP/1.1 200 OK\r\nX-Pad: ' + b'p' * (16000 - 30) + b'\r\n\r\n',
+    'ok-big-16384': b'HTTP/1.1 200 OK\r\nX-Pad: ' + b'p' * (16384 - 28) + b'\r\n\r\n',
 }
 BAD_REPLIES = {
     'status-407': b'HTTP/1.1 407 Proxy Authentication Required\r\nProxy-Authenticate: Basic\r\n\r\n',
@@ -88,6 +89,10 @@ BAD_REPLIES = {
     'oversize-terminated': b'HTTP/1.1 200 OK\r\nX-Pad: ' + b'p' * 17000 + b'\r\n\r\n',
     'oversize-unterminated': b'HTTP/1.1 200 OK\r\nX-Pad: ' + b'p' * 40000,
     'only-crlf': b'\r\n\r\n',
+    # exactly 1..4 bytes over the limit (terminated): the part that crosses it is the blank line itself
+    'oversize-terminated-16385': b'HTTP/1.1 200 OK\r\nX-Pad: ' + b'p' * (16385 - 28) + b'\r\n\r\n',
+    'oversize-terminated-16386': b'HTTP/1.1 200 OK\r\nX-Pad: ' + b'p' * (16386 - 28) + b'\r\n\r\n',
+    'oversize-terminated-16388': b'HTTP/1.1 200 OK\r\nX-Pad: ' + b'p' * (16388 - 28) + b'\r\n\r\n',
     'silent-proxy': b'',
     'half-then-silent': b'HTTP/1.1 200 Connection est',
 }
